@@ -375,11 +375,11 @@ func checkPure[K any](h *hk[K], t Tree[K, uint64], ref *refMap[K], which, sa, sb
 	var nv uint64
 	switch which {
 	case 6: // Delete of an absent key
-		k = h.newKey(sa)
+		k = mkKey(h, sa)
 		_, present := ref.get(k)
 		vpAssume(!present)
 	case 7: // Insert of a present key
-		k = h.newKey(sa)
+		k = mkKey(h, sa)
 		_, present := ref.get(k)
 		vpAssume(present)
 		nv = vpU64()
